@@ -238,8 +238,7 @@ func genAlt(r *vh.Rand, plugSide, inst, arity bool) alt {
 			}
 			a.OnClassic = &oc
 		}
-		if r.Chance(1, 12) {
-			n++
+		if p() {
 			b := r.Bool()
 			a.OnCoreDesktop = &b
 		}
@@ -328,7 +327,17 @@ func genDecl(r *vh.Rand, snapDecl bool, focus, prob int) decl {
 }
 
 func genEnv(r *vh.Rand) envT {
-	e := envT{Classic: r.Bool(), OSID: r.Pick([]string{"ubuntu", "debian", "fedora", "ubuntu-core", ""}), CoreDesktop: r.Chance(1, 4)}
+	// the three kinds of system: classic, core, core desktop (rarely the combination no real system has)
+	e := envT{OSID: r.Pick([]string{"ubuntu", "debian", "fedora", "ubuntu-core", ""})}
+	switch r.Intn(10) {
+	case 0, 1, 2, 3:
+		e.Classic = true
+	case 4, 5, 6:
+	case 7, 8:
+		e.CoreDesktop = true
+	default:
+		e.Classic, e.CoreDesktop = true, true
+	}
 	if r.Chance(3, 4) {
 		m := [3]string{r.Pick(brands), r.Pick(models), r.Pick([]string{"store1", "store2", "substore", ""})}
 		e.Model = &m
@@ -569,6 +578,117 @@ func fixedCases() []in {
 		ar.Sub[2] = &subrule{One: &alt{SlotAttrs: &matcher{K: "map", M: []km{{"k1", matcher{K: "lit", S: "x|y"}}}}}}
 		out = append(out, in{Kind: "conn", Env: env, Plug: p, Slot: side{Name: "n2", Iface: "ia", Type: "os", Static: []kv{{"k1", val{K: "s", S: v}}}},
 			Base: decl{Plugs: []irule{{"ia", ar}}}, ExtraDenyPlug: none, ExtraDenySlot: none})
+	}
+	// on-core-desktop: the three system kinds x value x allow/deny at each of the four levels, and for installation
+	cdT, cdF := true, false
+	kinds := []envT{{Classic: true, OSID: "ubuntu"}, {OSID: "ubuntu-core"}, {OSID: "ubuntu-core", CoreDesktop: true}}
+	cnt := 0
+	for level := 1; level <= 4; level++ {
+		for _, e := range kinds {
+			for _, v := range []*bool{&cdT, &cdF} {
+				for deny := 0; deny < 2; deny++ {
+					cnt++
+					kind, idx := "conn", 2
+					if cnt%2 == 0 {
+						kind, idx = "auto", 4
+					}
+					ru := rule{}
+					ru.Sub[idx+deny] = &subrule{One: &alt{OnCoreDesktop: v}}
+					opp := rule{Short: &cdT}
+					if deny == 0 {
+						opp = rule{Short: &cdF}
+					}
+					i := in{Kind: kind, Env: e, Plug: p, Slot: s, ExtraDenyPlug: none, ExtraDenySlot: none}
+					pd := &decl{SnapID: snapIDs[0], PubID: "pub-one"}
+					sd := &decl{SnapID: snapIDs[1], PubID: "pub-two"}
+					switch level {
+					case 1:
+						pd.Plugs = []irule{{"ia", ru}}
+						sd.Slots = []irule{{"ia", opp}}
+						i.Base = decl{Plugs: []irule{{"ia", opp}}, Slots: []irule{{"ia", opp}}}
+					case 2:
+						sd.Slots = []irule{{"ia", ru}}
+						i.Base = decl{Plugs: []irule{{"ia", opp}}, Slots: []irule{{"ia", opp}}}
+					case 3:
+						i.Base = decl{Plugs: []irule{{"ia", ru}}, Slots: []irule{{"ia", opp}}}
+					default:
+						i.Base = decl{Slots: []irule{{"ia", ru}}}
+					}
+					i.PlugDecl, i.SlotDecl = pd, sd
+					out = append(out, i)
+				}
+			}
+		}
+	}
+	for _, plugSide := range []bool{true, false} {
+		for _, snapLevel := range []bool{true, false} {
+			for _, e := range kinds {
+				for _, v := range []*bool{&cdT, &cdF} {
+					cnt++
+					ru := rule{}
+					ru.Sub[cnt%2] = &subrule{One: &alt{OnCoreDesktop: v}}
+					opp := rule{Short: &cdT}
+					if cnt%2 == 0 {
+						opp = rule{Short: &cdF}
+					}
+					i := in{Kind: "inst", Env: e, Type: "app", ExtraDenyPlug: none, ExtraDenySlot: none}
+					d := decl{}
+					if plugSide {
+						i.Plugs = []side{p}
+						d.Plugs = []irule{{"ia", ru}}
+					} else {
+						i.Slots = []side{{Name: "n2", Iface: "ia", Type: "app"}}
+						d.Slots = []irule{{"ia", ru}}
+					}
+					if snapLevel {
+						d.SnapID, d.PubID = snapIDs[0], "pub-one"
+						i.Decl = &d
+						if plugSide {
+							i.Base = decl{Plugs: []irule{{"ia", opp}}}
+						} else {
+							i.Base = decl{Slots: []irule{{"ia", opp}}}
+						}
+					} else {
+						i.Base = d
+					}
+					out = append(out, i)
+				}
+			}
+		}
+	}
+	// device scope without a model; with a model and a store assertion whose friendly stores match
+	for _, e := range []envT{{Classic: true, OSID: "ubuntu"},
+		{Classic: true, OSID: "ubuntu", Model: &[3]string{"brand1", "model1", "store1"}},
+		{Classic: true, OSID: "ubuntu", Model: &[3]string{"brand2", "model1", "substore"}, Store: &storeT{Store: "substore", Friendly: []string{"store1"}}}} {
+		for _, a := range []alt{{Device: true, OnBrand: []string{"brand1"}}, {Device: true, OnStore: []string{"store1"}}, {Device: true, OnModel: []string{"brand1/model1"}}} {
+			a := a
+			dr := rule{}
+			dr.Sub[2] = &subrule{One: &a}
+			out = append(out, in{Kind: "conn", Env: e, Plug: p, Slot: s, Base: decl{Plugs: []irule{{"ia", dr}}}, ExtraDenyPlug: none, ExtraDenySlot: none})
+		}
+	}
+	// $SLOT_PUBLISHER_ID in a slot rule, with and without declarations
+	spub := rule{}
+	spub.Sub[2] = &subrule{One: &alt{PlugPubIDs: []string{"$SLOT_PUBLISHER_ID"}}}
+	for _, pd := range []*decl{nil, {SnapID: snapIDs[0], PubID: "pub-one"}, {SnapID: snapIDs[0], PubID: "pub-two"}} {
+		for _, sd := range []*decl{nil, {SnapID: snapIDs[1], PubID: "pub-one"}} {
+			out = append(out, in{Kind: "conn", Env: env, Plug: p, Slot: s, PlugDecl: pd, SlotDecl: sd,
+				Base: decl{Slots: []irule{{"ia", spub}}}, ExtraDenyPlug: none, ExtraDenySlot: none})
+		}
+	}
+	// attribute constraints over nested maps and lists
+	nested := &matcher{K: "map", M: []km{{"k1", matcher{K: "map", M: []km{{"k2", matcher{K: "alt", A: []matcher{{K: "lit", S: "x"}, {K: "lit", S: "y|5"}}}}}}}}}
+	for _, v := range []val{
+		{K: "m", M: []kv{{"k2", val{K: "l", L: []val{{K: "s", S: "x"}, {K: "i", I: 5}}}}}},
+		{K: "m", M: []kv{{"k2", val{K: "l", L: []val{{K: "s", S: "x"}, {K: "s", S: "xq"}}}}}},
+		{K: "l", L: []val{{K: "m", M: []kv{{"k2", val{K: "s", S: "y"}}}}, {K: "m", M: []kv{{"k2", val{K: "l", L: []val{{K: "l", L: []val{{K: "s", S: "x"}}}}}}}}}},
+		{K: "l", L: []val{{K: "m", M: []kv{{"k3", val{K: "s", S: "y"}}}}}},
+		{K: "s", S: "x"},
+	} {
+		nr := rule{}
+		nr.Sub[2] = &subrule{One: &alt{PlugAttrs: nested}}
+		out = append(out, in{Kind: "conn", Env: env, Plug: side{Name: "n1", Iface: "ia", Type: "app", Static: []kv{{"k1", v}}}, Slot: s,
+			Base: decl{Plugs: []irule{{"ia", nr}}}, ExtraDenyPlug: none, ExtraDenySlot: none})
 	}
 	// slots-per-plug
 	for _, spp := range []string{"*", "1", "2", ""} {
